@@ -33,6 +33,7 @@ type Report struct {
 	PathsPanicked  int                `json:"paths_panicked"`
 	Observations   []Inputs           `json:"observations,omitempty"`
 	FmtOpaque      int                `json:"fmt_opaque"`
+	J2PlainAssumed int                `json:"j2_plain_bytes_assumed"`
 	stubSet        map[string]bool
 	violSeen       map[string]bool
 }
